@@ -103,7 +103,7 @@ def check_accessors(repo: Repo, rep, P: str, ci: ClassInfo, word: str, width: in
     if expected_fields is not None:
         got = {(F[0], len(F)): n for n, F in fsets.items()}
         for k, nm in expected_fields.items():
-            if k not in got and undecided:
+            if k not in got and (undecided or len(fsets) < len(expected_fields)):
                 rep.inconclusive(f"{P}.R3c", construct_base, f"field start={k[0]} length={k[1]} ({nm})",
                                  "an accessor could not be evaluated, so the specified sub-field cannot be matched", f"{ci.file.rel}:{ci.node.lineno}")
             elif k not in got:
